@@ -34,7 +34,7 @@ type readResult struct {
 // returns an error or a value, and a returned value holds no empty (fabricated) message.
 func generic(b []byte) (readResult, string) {
 	var r readResult
-	alloc, failed := ev.Measure(ev.Watchdog, func() { r.s, r.err = smf.ReadFrom(bytes.NewReader(b)) })
+	alloc, failed := ev.Measure(ev.Watchdog, func() { r.s, r.err = smf.ReadFrom(bytes.NewReader(b), adapt.ReadOpts(b)...) })
 	if failed != "" {
 		return r, "smf.ReadFrom: " + failed
 	}
@@ -314,7 +314,7 @@ var mutants = ev.NewCheck("C05", "mutations",
 	genMut, runMut)
 
 var boundary = ev.NewCheck("C05", "boundary-inputs",
-	"hand written boundary inputs (ntrks 0 with a track chunk, stray data/system bytes where a status is required, garbage SMPTE bytes, format 3, declared lengths 2^25..2^28 without payload, cut-off channel messages, over-long VLQ, tempo 0, huge alien chunk length) and the literal files of the repository's tests; same oracle as 'mutations'",
+	"hand written boundary inputs (ntrks 0 with a track chunk, stray data/system bytes where a status is required, garbage SMPTE bytes, format 3, declared lengths 2^25..2^28 without payload, cut-off channel messages, over-long VLQ, tempo 0, huge alien chunk length; declared payload lengths 2^21..2^28-1 with 65535..200000 real bytes behind them) and the literal files of the repository's tests; same oracle as 'mutations'",
 	nil, runMut)
 
 func TestPropMutations(t *testing.T) { mutants.Rapid(t, 6000, 30000) }
@@ -359,6 +359,28 @@ func TestEnumBoundaryInputs(t *testing.T) {
 		"tempo-zero":             cat(hdr(0, 1, 96), trk(0, 0xFF, 0x51, 3, 0, 0, 0, 10, 0xFF, 0x51, 3, 0, 0, 1, 5, 0xFF, 0x2F, 0)),
 		"tempo-short":            cat(hdr(0, 1, 96), trk(0, 0xFF, 0x51, 1, 9, 0, 0xFF, 0x2F, 0)),
 		"alien-huge-length":      cat(hdr(0, 1, 96), []byte("XFIH\xff\xff\xff\xff"), trk(0, 0xFF, 0x2F, 0)),
+	}
+	// a declared length far beyond the data, with MORE than 64 KiB of real data behind it: a reader
+	// that grows its buffer while data keeps coming must not jump to the declared size
+	filler := func(n int) []byte {
+		b := make([]byte, n)
+		for i := range b {
+			b[i] = byte(i*7) & 0x7F
+		}
+		return b
+	}
+	for _, kind := range []struct {
+		name string
+		head []byte
+	}{{"meta", []byte{0, 0xFF, 0x01}}, {"sysex", []byte{0, 0xF0}}, {"escape", []byte{0, 0xF7}}, {"seqdata", []byte{0, 0xFF, 0x7F}}} {
+		for _, declared := range []uint32{1 << 21, 1 << 24, 1 << 26, 1 << 27, 1<<28 - 1} {
+			for _, real := range []int{65535, 65536, 65537, 70000, 131073, 200000} {
+				body := append(append([]byte{}, kind.head...), smfref.VLQ(declared)...)
+				body = append(body, filler(real)...)
+				b := cat(hdr(0, 1, 96), []byte("MTrk"), binary.BigEndian.AppendUint32(nil, uint32(len(body))), body)
+				inputs[fmt.Sprintf("declared-%d-%s-with-%d-real-bytes", declared, kind.name, real)] = b
+			}
+		}
 	}
 	var lit map[string]ev.Hex
 	json.Unmarshal(repoFilesJSON, &lit)
